@@ -33,9 +33,9 @@ func fieldStoreIn(in ssa.Instruction, owner, field string) (*ssa.Store, bool) {
 func runC18(c *Ctx) {
 	p := c.P
 	const P = "C18"
-	c.rule(P, "lock", "TokenBucket.tokens/lastRefill and limiter maps only under their mu", 30)
+	c.rule(P, "lock", "TokenBucket.tokens/lastRefill and limiter maps only under their mu", 15)
 	c.rule(P, "order", "Allow/AllowN: refill → cap → lastRefill=now → test tokens>=n → consume on the true edge only", 8)
-	c.rule(P, "refill-pair", "crediting tokens from elapsed time is always paired with advancing lastRefill; Tokens() writes nothing", 3)
+	c.rule(P, "refill-pair", "crediting tokens from elapsed time is always paired with advancing lastRefill; Tokens() writes nothing", 2)
 	c.rule(P, "init", "NewTokenBucket: tokens = maxTokens = burst, lastRefill = now", 1)
 	c.rule(P, "cleanup-guard", "limiter deletions in cleanup are guarded by Tokens() >= burst of the deleted entry", 2)
 	c.rule(P, "op-table", "every OperationType constant has a rate and a burst and is consulted by its procedure(s)", 8)
@@ -53,6 +53,31 @@ func runC18(c *Ctx) {
 		}
 		var refill, capSt, consume, last *ssa.Store
 		var nowVal ssa.Value
+		var mergedAdd *ssa.BinOp
+		var mergedPhi *ssa.Phi
+		mergedMaxIdx := -1
+		key := "fn=" + name
+		// delegation: Allow() { return tb.AllowN(1) } is decided by AllowN's own obligations
+		if name == "(*TokenBucket).Allow" {
+			if an := p.Fn("(*TokenBucket).AllowN"); an != nil {
+				delegates := false
+				nCalls := 0
+				for _, call := range calls(fn) {
+					nCalls++
+					if staticCallee(call) == an && len(call.Common().Args) == 2 && len(fn.Params) > 0 && call.Common().Args[0] == ssa.Value(fn.Params[0]) {
+						if k, isC := constInt(call.Common().Args[1]); isC && k == 1 {
+							delegates = true
+						}
+					}
+				}
+				if delegates && nCalls == 1 {
+					for _, part := range []string{" refill", " cap", " sequence", " consume"} {
+						c.ok(P, "order", key+part, p.pos(fn.Pos()), "Allow is AllowN(1)")
+					}
+					continue
+				}
+			}
+		}
 		for _, b := range fn.Blocks {
 			for _, in := range b.Instrs {
 				if st, ok := fieldStoreIn(in, "TokenBucket", "lastRefill"); ok {
@@ -65,6 +90,16 @@ func runC18(c *Ctx) {
 				}
 				if bo, ok := st.Val.(*ssa.BinOp); ok && bo.Op == token.ADD {
 					refill = st
+				} else if phi, ok := st.Val.(*ssa.Phi); ok && len(phi.Edges) == 2 {
+					// refill and cap computed in a local and stored once: tokens = (t > max ? max : t), t = tokens + …
+					for i, e := range phi.Edges {
+						add, isAdd := e.(*ssa.BinOp)
+						_, mf, isMax := fieldLoad(phi.Edges[1-i])
+						if isAdd && add.Op == token.ADD && isMax && mf != nil && mf.Name() == "maxTokens" {
+							refill, capSt = st, st
+							mergedAdd, mergedPhi, mergedMaxIdx = add, phi, 1-i
+						}
+					}
 				} else if bo, ok := st.Val.(*ssa.BinOp); ok && bo.Op == token.SUB {
 					consume = st
 				} else if _, f, ok := fieldLoad(st.Val); ok && f != nil && f.Name() == "maxTokens" {
@@ -72,7 +107,6 @@ func runC18(c *Ctx) {
 				}
 			}
 		}
-		key := "fn=" + name
 		if refill == nil || capSt == nil || consume == nil || last == nil {
 			c.bad(P, "order", key+" steps", p.pos(fn.Pos()), fmt.Sprintf("missing step (refill=%v cap=%v lastRefill=%v consume=%v)", refill != nil, capSt != nil, last != nil, consume != nil))
 			continue
@@ -106,6 +140,18 @@ func runC18(c *Ctx) {
 				}
 			}
 		}
+		if mergedPhi != nil && mergedMaxIdx < len(mergedPhi.Block().Preds) {
+			// merged form: the maxTokens edge of the phi is taken exactly when the refilled value exceeds maxTokens
+			pred := mergedPhi.Block().Preds[mergedMaxIdx]
+			for _, f := range append(append([]condFact{}, p.facts(pred)...), edgeFacts(pred, mergedPhi.Block())...) {
+				op, l, r, ok := normCmp(f)
+				if ok && op == ">" && l == ssa.Value(mergedAdd) {
+					if _, rf, ok2 := fieldLoad(r); ok2 && rf.Name() == "maxTokens" {
+						capOK = true
+					}
+				}
+			}
+		}
 		c.verdictIf(capOK, P, "order", key+" cap", p.instrPos(capSt), "capped to maxTokens when above", "the bucket is not capped on `tokens > maxTokens`")
 		// order by dominance: refill ≺ cap-test ≺ lastRefill/consume-test
 		before := func(a, b ssa.Instruction) bool {
@@ -116,6 +162,9 @@ func runC18(c *Ctx) {
 			capTestBlock = capTestBlock.Preds[0]
 		}
 		ordOK := before(refill, capSt) && before(refill, consume) && capTestBlock.Dominates(consume.Block()) && before(last, consume)
+		if mergedPhi != nil {
+			ordOK = before(refill, consume) && before(last, consume)
+		}
 		c.verdictIf(ordOK, P, "order", key+" sequence", p.pos(fn.Pos()), "refill, cap, stamp, then consume", "the steps do not occur in the order refill → cap → lastRefill → consume on every path")
 		// consume on true edge of tokens >= n; return true only there
 		consOK := false
